@@ -650,11 +650,13 @@ def replay_trace(elab, tr, clock_names=("sysclk",), reset_names=("reset",), rese
     it = Interp(elab, case_merge=case_merge, **(opts or {}))
     ports = {pn: (d, n) for pn, d, n in elab.top_ports}
     meta = tr.get("meta") or meta or {}      # period traces carry no port names: the caller passes the design's .meta
-    if meta.get("clkport", "-") != "-":
+    if meta.get("clkports", "-") != "-":
+        clock_names = tuple(meta["clkports"].split(","))
+    elif meta.get("clkport", "-") != "-":
         clock_names = (meta["clkport"],)
     if "resets" in meta:
         reset_names = tuple(x.split(":")[0] for x in meta["resets"].split(",") if x != "-")
-    clk = [ports[c][1] for c in clock_names if c in ports]
+    clk = {c: ports[c][1] for c in clock_names if c in ports}
     rst = {r: ports[r][1] for r in reset_names if r in ports}
     ins = [(nm, int(w)) for nm, w in tr["pins_in"]]
     outs = [(nm, int(w)) for nm, w in tr["pins_out"]]
@@ -672,8 +674,9 @@ def replay_trace(elab, tr, clock_names=("sysclk",), reset_names=("reset",), rese
 def _replay_trace(it, tr, ports, clk, rst, ins, outs, reset_active, stats):
     # power-on levels: the clock pin starts at the level opposite to its first recorded edge; every reset pin starts at the
     # level of its power-on event (first ev line), as the generated test bench initialises them from the simulator's state
-    first_clk = next((e for c in tr["cycles"] for e in c[2] if e in ("E", "e")), "e")
-    for c in clk:
+    # (events of a design with several clock pins carry the exported port name: E@name / e@name)
+    for name, c in clk.items():
+        first_clk = next((e[0] for cy in tr["cycles"] for e in cy[2] if e[0] in "Ee" and (e in ("E", "e") or e[2:] == name)), "e")
         it.val[c.id] = "1" if first_clk == "e" else "0"; it.last[c.id] = it.val[c.id]
     lvl0 = {}
     for e in (tr["cycles"][0][2] if tr["cycles"] else []):
@@ -689,12 +692,25 @@ def _replay_trace(it, tr, ports, clk, rst, ins, outs, reset_active, stats):
     it.initialise()
     for cyc, (iv, ov, evs) in enumerate(tr["cycles"]):
         it.cur_cycle = cyc
-        for ev in evs:
-            if ev == "E":
-                it.apply({c.id: "1" for c in clk})
-            elif ev == "e":
-                it.apply({c.id: "0" for c in clk})
-            elif ev[0] == "R":      # SimulatorCallbacks::onReset reports the LEVEL of the reset pin
+        # (in half-period traces the sampling step is the fastest half period and all clock pins toggle on multiples of it, so consecutive clock
+        # events of one ev line belong to ONE instant: they take effect together, as simultaneous signal updates do in VHDL)
+        batch = {}
+        for ev in list(evs) + ["."]:
+            if ev in ("E", "e"):
+                if batch:                            # a second edge of the (single) pin: a new instant
+                    it.apply(batch); batch = {}
+                batch.update({c.id: "1" if ev == "E" else "0" for c in clk.values()}); continue
+            if ev[0] in "Ee" and ev[1:2] == "@":
+                if ev[2:] in clk:
+                    if clk[ev[2:]].id in batch:      # a second edge of the same pin: a new instant
+                        it.apply(batch); batch = {}
+                    batch[clk[ev[2:]].id] = "1" if ev[0] == "E" else "0"
+                continue
+            if batch:
+                it.apply(batch); batch = {}
+            if ev == ".":
+                break
+            if ev[0] == "R":      # SimulatorCallbacks::onReset reports the LEVEL of the reset pin
                 if "@" in ev:
                     if ev[3:] in rst:
                         it.apply({rst[ev[3:]].id: ev[1]})
